@@ -163,7 +163,7 @@ def execute(scn, keep_log=False, hook=None):
                     submit(c)
                 finally:
                     nest[0] -= 1
-    bus.observers.append(on_tx)
+    bus.post_hooks.append(on_tx)
     for c in scn['calls']:
         if c.get('on_tx') is not None:
             continue
